@@ -119,15 +119,55 @@ def trusted_scan(asm):
 
 
 def decide(pid, tier='quick', seed=0, known=None):
-    """assemble + verify. returns (exit_code, evidence_dict, violation_records)"""
+    """a property may have several templates (contracts/Cxx.rs.tmpl, contracts/Cxx_*.rs.tmpl; *_thorough_* only in the
+    thorough tier): each is assembled and verified on its own, the obligation tables are merged"""
+    import glob
+    from concurrent.futures import ThreadPoolExecutor
+    tmpls = sorted(glob.glob(os.path.join(VERIF, 'contracts', pid + '.rs.tmpl')) + glob.glob(os.path.join(VERIF, 'contracts', pid + '_*.rs.tmpl')))
+    if tier != 'thorough':
+        tmpls = [t for t in tmpls if '_thorough' not in os.path.basename(t)]
+    if not tmpls:
+        raise Undecided('no contract template for %s' % pid)
+    t0 = time.time()
+    with ThreadPoolExecutor(max_workers=len(tmpls)) as ex:
+        futs = [ex.submit(decide_one, pid, t, tier, seed) for t in tmpls]
+        results = []
+        err = None
+        for f in futs:
+            try:
+                results.append(f.result())
+            except Undecided as e:
+                err = err or e
+        if err:
+            raise err
+    rc, evidence, viol = results[0]
+    for (rc2, ev2, v2) in results[1:]:
+        rc = max(rc, rc2)
+        viol += v2
+        c, c2 = evidence['coverage'], ev2['coverage']
+        for k in ('obligations', 'discharged', 'solver_us', 'vacuity_twins_failed_as_required'):
+            c[k] += c2[k]
+        for k in ('trusted_base', 'functions_under_contract', 'copied_types', 'rewrites', 'obligations_table', 'not_verified', 'modelled', 'samples'):
+            c[k] = c[k] + [x for x in c2[k] if x not in c[k]]
+        c['checker_cmd'] += ' ; ' + c2['checker_cmd']
+        c['generated_file'] += ' ' + c2['generated_file']
+        c['explanation'] = (c['explanation'] + ' ' + c2['explanation']).strip()
+        evidence['assumptions'] = evidence['assumptions'] + [a for a in ev2['assumptions'] if a not in evidence['assumptions']]
+        evidence['violations'] += ev2['violations']
+    evidence['coverage']['samples'] = evidence['coverage']['samples'][:16]
+    evidence['wall_s'] = round(time.time() - t0, 2)
+    return rc, evidence, viol
+
+
+def decide_one(pid, tmpl, tier='quick', seed=0):
+    """assemble + verify one template. returns (exit_code, evidence_dict, violation_records)"""
     t0 = time.time()
     gen_dir = os.path.join(VERIF, 'generated')
     os.makedirs(gen_dir, exist_ok=True)
-    tmpl = os.path.join(VERIF, 'contracts', pid + '.rs.tmpl')
     asm = Assembly(pid, REPO, tier)
     asm.process(tmpl)
     labels = asm.labels()
-    path = os.path.join(gen_dir, pid + '.rs')
+    path = os.path.join(gen_dir, os.path.basename(tmpl)[:-len('.rs.tmpl')] + '.rs')
     with open(path, 'w') as f:
         f.write(asm.text())
     threads = int(os.environ.get('VERIF_THREADS', '8'))
